@@ -1,3 +1,6 @@
 import Lean
 /-- lemmas `(f w ..).kv = w.kv`: code that does not touch the kernel view (see `Lemmas/KView.lean`) -/
 register_simp_attr kvsimp
+
+/-- lemmas `(f w ..).tv = w.tv`: code that writes nothing to the trace (see `Lemmas/TView.lean`) -/
+register_simp_attr tvsimp
